@@ -64,17 +64,61 @@ def _passthrough_classes(prog) -> set[ClassInfo]:
                         attrs.add(t.attr)
         if not attrs:
             continue
-        ok = False
-        for x in walk_no_nested(it.node):
-            if isinstance(x, ast.YieldFrom) and isinstance(x.value, ast.Attribute) and x.value.attr in attrs:
-                ok = True
-            if isinstance(x, ast.For) and isinstance(x.iter, ast.Attribute) and x.iter.attr in attrs and isinstance(x.target, ast.Name):
-                ys = [y for y in ast.walk(x) if isinstance(y, ast.Yield)]
-                if ys and all(isinstance(y.value, ast.Name) and y.value.id == x.target.id for y in ys):
-                    ok = True
-        if ok:
+        if _yields_only_items_of(ci, it, attrs, 0):
             out.add(ci)
     return out
+
+
+def _class_method_table(ci: ClassInfo, name: str) -> list | None:
+    """the methods listed as values of a class-level dict `NAME = {key: method, …}` (a dispatch table)"""
+    for st in ci.node.body:
+        if isinstance(st, (ast.Assign, ast.AnnAssign)):
+            tgt = st.targets[0] if isinstance(st, ast.Assign) else st.target
+            if isinstance(tgt, ast.Name) and tgt.id == name and isinstance(st.value, ast.Dict):
+                ms = [ci.methods.get(v.id) if isinstance(v, ast.Name) else None for v in st.value.values]
+                return ms if ms and all(m is not None for m in ms) else None
+    return None
+
+
+def _yields_only_items_of(ci: ClassInfo, fn: FuncInfo, attrs: set, depth: int) -> bool:
+    """every value the generator `fn` yields is an item of self.<attr> (attr in attrs), in the order of that
+    iterable: `yield from self.attr`, `for item in self.attr: … yield item`, or `yield from` another such generator
+    of the class — called by name or taken from a class-level dispatch table of such generators"""
+    if depth > 3:
+        return False
+    ys = [x for x in walk_no_nested(fn.node) if isinstance(x, (ast.Yield, ast.YieldFrom))]
+    if not ys:
+        return False
+    loop_items = set()
+    for x in walk_no_nested(fn.node):
+        if isinstance(x, ast.For) and isinstance(x.iter, ast.Attribute) and x.iter.attr in attrs and isinstance(x.target, ast.Name):
+            loop_items.update(id(y) for y in ast.walk(x) if isinstance(y, ast.Yield) and isinstance(y.value, ast.Name) and y.value.id == x.target.id)
+    local_tables: dict = {}
+    for x in walk_no_nested(fn.node):
+        if isinstance(x, ast.Assign) and len(x.targets) == 1 and isinstance(x.targets[0], ast.Name) and isinstance(x.value, ast.Subscript) and isinstance(x.value.value, ast.Attribute) and isinstance(x.value.value.value, ast.Name) and x.value.value.value.id in ("self", "cls", ci.name):
+            local_tables[x.targets[0].id] = _class_method_table(ci, x.value.value.attr)
+    for y in ys:
+        if isinstance(y, ast.Yield):
+            if id(y) not in loop_items:
+                return False
+            continue
+        v = y.value
+        if isinstance(v, ast.Attribute) and v.attr in attrs:
+            continue
+        if isinstance(v, ast.Call):
+            cands = None
+            f = v.func
+            if isinstance(f, ast.Attribute) and isinstance(f.value, ast.Name) and f.value.id == "self" and not v.args:
+                m = ci.methods.get(f.attr)
+                cands = [m] if m is not None else None
+            elif isinstance(f, ast.Name) and f.id in local_tables and len(v.args) == 1 and isinstance(v.args[0], ast.Name) and v.args[0].id == "self":
+                cands = local_tables[f.id]
+            elif isinstance(f, ast.Subscript) and isinstance(f.value, ast.Attribute) and isinstance(f.value.value, ast.Name) and f.value.value.id in ("self", "cls", ci.name) and len(v.args) == 1 and isinstance(v.args[0], ast.Name) and v.args[0].id == "self":
+                cands = _class_method_table(ci, f.value.attr)
+            if cands and all(_yields_only_items_of(ci, m, attrs, depth + 1) for m in cands):
+                continue
+        return False
+    return True
 
 
 class _Taint:
